@@ -121,6 +121,7 @@ Definition set_cols (s : svc) (c : block) : svc :=
   {| kd := kd s; grp := grp s; maxq := maxq s; cols := c; size := size s; results := results s; inflight := inflight s;
      client := client s; planned := planned s; running := running s |}.
 
+Definition is_nil {A} (l : list A) : bool := match l with [] => true | _ => false end.
 Definition is_none {A} (o : option A) : bool := match o with None => true | Some _ => false end.
 
 (* the fetch loop may start an iteration: Run is in its select, insertCtx is done, no Do in progress *)
@@ -149,7 +150,7 @@ Definition sstep (s : svc) (a : sact) : option (svc * list sev) :=
       if loop_ready s && negb (client s) then Some (set_client s ok, []) else None
   | SSwap =>
       if loop_ready s && client s then
-        if Z.eqb (size s) 0 then Some (set_planned s false, [])       (* size == 0: return nil, nil *)
+        if is_nil (results s) then Some (set_planned s false, [])     (* len(svc.results) == 0: return nil, nil *)
         else Some ({| kd := kd s; grp := grp s; maxq := maxq s; cols := empty_cols (kd s); size := 0; results := [];
                       inflight := Some {| p_cols := cols s; p_res := results s; p_sent := false |};
                       client := true; planned := false; running := running s |}, [VSwap])
@@ -200,7 +201,6 @@ Fixpoint cells_subb (r b : block) : bool :=
   | c :: r', d :: b' => if col_sub c d then cells_subb r' b' else false     (* = &&, evaluated lazily *)
   | _ :: _, [] => false
   end.
-Definition is_nil {A} (l : list A) : bool := match l with [] => true | _ => false end.
 Definition no_cells (r : req) : bool := forallb is_nil r.
 Definition key_empty (k : kind) (r : req) : bool := is_nil (nth (keycol k) r []).
 
@@ -246,7 +246,6 @@ Definition drain (s : svc) : list sact :=
   (if is_nil (results s) then [] else [SSend; SDoReturn true]).
 
 Definition is_srequest (a : sact) : bool := match a with SRequest _ _ _ => true | _ => false end.
-Definition pos_request (a : sact) : bool := match a with SRequest _ _ sz => Z.ltb 0 sz | _ => true end.
 Fixpoint dones (vs : list sev) : list (pid * bool) :=
   match vs with
   | [] => []
